@@ -124,7 +124,10 @@ func TestSequential(t *testing.T) {
 					}
 				}
 				exp := decide(ms, res, live[res], b)
-				opts := append([]sentinel.EntryOption{sentinel.WithBatchCount(uint32(b))}, chainOpt...)
+				opts := append([]sentinel.EntryOption{}, chainOpt...)
+				if !(b == 1 && rapid.Bool().Draw(t, "plainCall")) { // a single unit is asked for either explicitly or by leaving the option out
+					opts = append(opts, sentinel.WithBatchCount(uint32(b)))
+				}
 				if mixTypes { // the same resource name entered under several classifications and traffic types
 					opts = append(opts, sentinel.WithResourceType(base.ResourceType(rapid.IntRange(0, 6).Draw(t, "resType"))))
 					if rapid.Bool().Draw(t, "inbound") {
